@@ -88,6 +88,37 @@ def grade_check(cfg, h, sigma, HLIMIT=None):
     return errs, len(after) - len(before)
 
 
+def grade_sequence_check(cfg, h, s1, s2):
+    """Two gradings on the SAME mesh object (sigma s1, then s2): the second call must establish the s2 window as if the mesh
+    were fresh (whatever the first call left behind on the elements must not matter)."""
+    m = build(cfg, h)
+    before = leafset(m)
+    try:
+        with horizon(min(bisection_bound(before, s1), HLIMIT)):
+            m.refine_grading(sigma=s1, K=K)
+        mid = leafset(m)
+        b2 = bisection_bound(mid, s2)
+        if b2 > HLIMIT:
+            return [], -1
+        with horizon(b2):
+            m.refine_grading(sigma=s2, K=K)
+    except Horizon:
+        return [], -1
+    except Exception as ex:
+        return [('sequence-raised', repr(ex))], 0
+    after = leafset(m)
+    errs = []
+    bad = [a for a in after if not in_window(a, s2)]
+    if bad:
+        errs.append(('sequence-outside-window', {'first_sigma': s1, 'bad': sorted(bad)[:3]}))
+    for a in after:
+        par = [b for b in mid if contains(b, a)]
+        if len(par) != 1:
+            errs.append(('sequence-not-a-refinement', a))
+            break
+    return errs, len(after) - len(mid)
+
+
 def state_fn(cfg, h, m, ref):
     errs = []
     added = 0
@@ -99,7 +130,19 @@ def state_fn(cfg, h, m, ref):
             undecided += 1
         else:
             added += a
-    return errs, {'gradings': len(SIGMAS), 'elements_added': added, 'undecided_too_large': undecided}
+    nseq = 0
+    if len(h) <= state_fn.seq_depth:
+        for s1 in SIGMAS:
+            for s2 in SIGMAS:
+                if s1 == s2:
+                    continue
+                e, a = grade_sequence_check(cfg, h, s1, s2)
+                errs += [((t, s2), d) for t, d in e]
+                nseq += 1 if a >= 0 else 0
+    return errs, {'gradings': len(SIGMAS), 'elements_added': added, 'undecided_too_large': undecided, 'grading_sequences': nseq}
+
+
+state_fn.seq_depth = 2
 
 
 def report(ctx):
@@ -110,12 +153,14 @@ def report(ctx):
         (tag, sigma), detail = v
         ctx.violation({'cfg': cfgname, 'tag': tag, 'sigma': sigma},
                       'grading sigma={} K=4 on {} after history {}: {}: {}'.format(sigma, cfgname, list(hist), tag, detail),
-                      {'cfg': cfgname, 'history': [[list(r), ax] for r, ax in hist], 'sigma': sigma})
+                      {'cfg': cfgname, 'history': [[list(r), ax] for r, ax in hist], 'sigma': sigma,
+                       'first_sigma': detail.get('first_sigma') if isinstance(detail, dict) else None, 'sequence': tag.startswith('sequence')})
     return on_violation
 
 
 def run(ctx):
     depths = QUICK if ctx.tier == 'quick' else THOROUGH
+    state_fn.seq_depth = 2 if ctx.tier == 'quick' else 3
     st = meshmc.Stats()
     onv = report(ctx)
     for cfgname, d in depths.items():
@@ -146,7 +191,7 @@ def run(ctx):
     cov = {
         'states': st.states, 'transitions': st.transitions + int(st.extra.get('gradings', 0)),
         'traces_validated_against_impl': int(st.extra.get('gradings', 0)),
-        'grading_calls': int(st.extra.get('gradings', 0)), 'elements_added_by_grading': int(st.extra.get('elements_added', 0)),
+        'grading_calls': int(st.extra.get('gradings', 0)), 'two_grading_sequences_on_one_object': int(st.extra.get('grading_sequences', 0)), 'elements_added_by_grading': int(st.extra.get('elements_added', 0)),
         'per_config': st.per_cfg, 'samples': st.samples[:8], 'supplementary_random_gradings': nrw, 'supplementary_random_gradings_undecided_too_large': nund,
         'undecided_too_large_in_exhaustive_part': int(st.extra.get('undecided_too_large', 0)),
         'horizon_bisections': HLIMIT, 'exhaustive': not any(c['capped'] for c in st.per_cfg.values()) and not st.extra.get('undecided_too_large'),
@@ -160,6 +205,14 @@ def run(ctx):
 def replay(ctx, data):
     cfg = CFGS[data['cfg']]
     h = tuple((tuple(r), ax) for r, ax in data['history'])
+    if data.get('sequence'):
+        firsts = [data['first_sigma']] if data.get('first_sigma') else [x for x in SIGMAS if x != data['sigma']]
+        ok = True
+        for s1 in firsts:
+            e, added = grade_sequence_check(cfg, h, s1, data['sigma'])
+            print('grading with sigma', s1, 'then', data['sigma'], '->', e[:3])
+            ok = ok and not e
+        return ok
     e, added = grade_check(cfg, h, data['sigma'])
     print('elements added:', added)
     for x in e[:10]:
